@@ -35,6 +35,19 @@ class _Obj(object):
     pass
 
 
+class _Base(object):
+    """A class with a serialisation handler registered in the server's Config."""
+
+
+class _Sub(_Base):
+    def __init__(self):
+        self.x = 1
+
+
+def _base_handler(obj, serialize_method, ignore_attribute, ignore, config):
+    return {"handled": type(obj).__name__}
+
+
 def parse_http(data):
     """Splits a byte transcript into HTTP messages: [(start line, headers dict, body bytes)]."""
     out = []
@@ -145,6 +158,10 @@ class SysRun(object):
                     raise MethodError("boom %s" % name)
                 if kind == "const":
                     return spec.get("ret")
+                if kind == "exit":
+                    raise SystemExit(3)
+                if kind == "sub":
+                    return _Sub()
                 if kind == "fault":
                     from jsonrpclib import Fault
 
@@ -210,6 +227,8 @@ class SysRun(object):
         sv = self.p["server"]
         cfg = cfgmod.Config(version=sv.get("version", 2.0), use_jsonclass=sv.get("use_jsonclass", True),
                             content_type=sv.get("content_type", "application/json-rpc"))
+        if sv.get("handlers"):
+            cfg.serialize_handlers[_Base] = _base_handler
         return cfg
 
     # -- server --------------------------------------------------------------------
@@ -307,6 +326,18 @@ class SysRun(object):
             if kind == "call":
                 val = self._invoke(proxy, op[1], op[2])
                 out = ["value", val]
+            elif kind == "hcall":
+                # a kept intermediate handle used for several dotted calls
+                handle = proxy
+                for part in op[1]:
+                    handle = getattr(handle, part)
+                outs = []
+                for suffix, params in op[2]:
+                    try:
+                        outs.append(["value", self._invoke(handle, suffix, params)])
+                    except jc.ProtocolError as ex:
+                        outs.append(["error", type(ex).__name__, _plain(ex.args)])
+                out = ["hcall", outs]
             elif kind == "notify":
                 val = self._invoke(proxy._notify, op[1], op[2])
                 out = ["value", val]
@@ -335,7 +366,7 @@ class SysRun(object):
             out = ["error", type(ex).__name__, _plain(ex.args)]
         except BaseException as ex:
             out = ["exc", type(ex).__name__, str(ex)[:200]]
-        s.emit("op.ret", ci, oi, kind, json.dumps(out, sort_keys=True, default=repr))
+        s.emit("op.ret", ci, oi, kind, json.dumps(out, sort_keys=True, default=lambda o: "<%s>" % type(o).__name__))
         return out
 
     def raw_post(self, body):
@@ -569,7 +600,7 @@ def _plain(x):
         return [_plain(y) for y in x]
     if isinstance(x, dict):
         return dict((str(k), _plain(v)) for k, v in x.items())
-    return repr(x)
+    return "<%s>" % type(x).__name__  # never a repr: it may hold a memory address
 
 
 def execute(program, decider, chooser=None, step_cap=120000):
